@@ -86,7 +86,7 @@ class ExportTarget(Contract):
         if not isinstance(res, SRef):
             return False
         cls = eng.classes_of(st0, a.sig)[0]
-        which = st.ghost.get(("oneof", res.z.get_id(), "stype"))
+        which = st.ghost.get(("oneof", zid(res.z), "stype"))
         fresh_ = z3.Not(st0.heap.get("$alive", res.z))
         if issubclass(cls, Signal):
             return z3.And(fresh_, z3.BoolVal(which == "sig"), st.heap.get("sig", res.z) == st0.heap.get("name", a.sig.z))
